@@ -3,6 +3,7 @@ import math
 import os
 from hypothesis import strategies as st
 from lib import gen, biases
+from lib.gen import fl, rnd
 from lib.core import Outcome, run_case, fnum
 
 ID = "C01"
@@ -32,6 +33,11 @@ def spec_restraints(draw, tier):
             cvs.append(draw(gen.nonscalar_colvar(sysd, "cv%d" % (i + 1))))
         else:
             cvs.append(draw(gen.scalar_colvar(sysd, "cv%d" % (i + 1))))
+    for cv in cvs:
+        # restraint forces scale with 1/width (linear) or 1/width^2 (harmonic): the energy must scale alike
+        w = draw(st.sampled_from([1.0, 1.0, 0.5, 2.0, 0.25]))
+        if w != 1.0:
+            cv["kv"] = dict(cv.get("kv") or {}, width=gen.fmt(w))
     nb = draw(st.sampled_from([1, 1, 2]))
     bs = []
     for j in range(nb):
@@ -208,3 +214,107 @@ PARTS = {
     "restraints": {"strategy": spec_restraints, "check": check_restraints,
                    "examples": {"quick": 3200, "thorough": 60000}, "sample": sample_view},
 }
+
+
+# ------------------------------------------------------------------------------------------------------------
+# history-dependent biases with analytic kernels, evaluated with their state frozen (DESIGN 3.3)
+
+@st.composite
+def spec_history(draw, tier):
+    sysd = draw(gen.system(4, 12))
+    kind = draw(st.sampled_from(["meta_nogrid", "meta_nogrid", "opes", "abmd"]))
+    if kind == "meta_nogrid" and draw(st.integers(0, 3)) == 0:
+        cv = draw(gen.nonscalar_colvar(sysd, "cv1"))
+    else:
+        cv = draw(gen.scalar_colvar(sysd, "cv1", allow_scripted=False))
+    K = draw(st.integers(3, 7))
+    n = sysd["natoms"]
+    jit = [[[rnd(draw(fl(-0.08, 0.08)), 3) for _ in range(3)] for _ in range(n)] for _ in range(K + 1)]
+    return {"sys": sysd, "cvs": [cv], "biases": [], "kind": kind, "K": K, "jit": jit, "W": rnd(draw(fl(0.2, 3.0)), 2),
+            "hw": draw(st.sampled_from([1.0, 2.0, 3.0])), "k": rnd(draw(fl(0.5, 20.0)), 2), "shifts": None}
+
+
+def check_history(spec, ctx):
+    sysd = spec["sys"]
+    n = sysd["natoms"]
+    if sysd["cell"] and gen.uses_fit(spec["cvs"]):
+        sysd = dict(sysd)
+        sysd["cell"] = [c * 3.0 for c in sysd["cell"]]
+        spec = dict(spec)
+        spec["sys"] = sysd
+    head = gen.case_header(sysd, extra=["temperature 0x1.2c00000000000p+8"])
+    K = spec["K"]
+    poss = [[[sysd["pos"][a][k] + spec["jit"][t][a][k] for k in range(3)] for a in range(n)] for t in range(K + 1)]
+    cv = spec["cvs"][0]
+    # pass 1: values along the priming trajectory
+    cfg1 = build_config(spec, None, ctx["workdir"], with_biases=False)
+    L1 = head + [gen.config_block(cfg1)]
+    for t in range(K + 1):
+        L1 += [gen.pos_line(poss[t]), "step"]
+    r1 = run_case("\n".join(L1) + "\n")
+    if r1.crashed or r1.of("config")[0]["rc"] != 0 or any(s["errbits"] for s in r1.of("step")):
+        return Outcome(False, msg="pass 1 failed: %s" % r1.stderr[-300:], sig="gen_invalid", case_text="\n".join(L1))
+    xs = [s["cv"][0]["x"] for s in r1.of("step")]
+    if any(not math.isfinite(c) for x in xs for c in x):
+        return Outcome(discard=True)
+    kind = spec["kind"]
+    scalar = cv["vtype"] == gen.SCALAR
+    spread = max(max(abs(a - b) for a, b in zip(xs[i], xs[0])) for i in range(K + 1))
+    if spread < 1e-9:
+        return Outcome(discard=True)
+    width = max(spread, 1e-3)
+    order = list(range(K + 1))
+    if kind == "abmd":
+        # finish where the variable is lowest, so that the ratchet (which follows the maximum) pulls
+        order.sort(key=lambda t: -xs[t][0])
+        if xs[order[0]][0] - xs[order[-1]][0] < 1e-6:
+            return Outcome(discard=True)
+        if cv.get("periodic"):
+            return Outcome(discard=True)
+        bias = "abmd {\n  name b1\n  colvars cv1\n  forceConstant %s\n  stoppingValue %s\n}" % (gen.fmt(spec["k"] / (width * width)), gen.fmt(xs[order[0]][0] + 10 * width))
+    elif kind == "opes":
+        if cv.get("periodic"):
+            return Outcome(discard=True)
+        bias = "opes_metad {\n  name b1\n  colvars cv1\n  newHillFrequency 3\n  barrier 10.0\n  gaussianSigma %s\n}" % gen.fmt(width)
+    else:
+        bias = "metadynamics {\n  name b1\n  colvars cv1\n  hillWeight %s\n  hillWidth %s\n  newHillFrequency 2\n  useGrids off\n}" % (gen.fmt(spec["W"]), gen.fmt(spec["hw"]))
+    igs = []
+    cvtext = gen.render_colvar(cv, igs, extra={"width": gen.fmt(width)})
+    headcfg = ""
+    if igs:
+        path = os.path.join(ctx["workdir"], "index_h_%d.ndx" % os.getpid())
+        open(path, "w").write(gen.render_index_file(igs))
+        headcfg = "indexFile %s\n" % path
+    L2 = head + [gen.config_block(headcfg + cvtext + "\n" + bias)]
+    for t in order:
+        L2 += [gen.pos_line(poss[t]), "step"]
+    # K+1 evaluations were made at steps 0..K; the frozen evaluations repeat step K, which must not be a deposition step
+    if kind == "opes" and K % 3 == 0:
+        L2 += [gen.pos_line(poss[order[-1]]), "step"]
+    if kind == "meta_nogrid" and False:
+        pass
+    L2.append("fd %s 0 %s" % (fnum(H), fnum(ETA)))
+    case2 = "\n".join(L2) + "\n"
+    r2 = run_case(case2)
+    if r2.crashed:
+        return Outcome(False, msg="crash rc=%s\n%s" % (r2.returncode, r2.stderr), sig="crash", case_text=case2)
+    c2 = r2.of("config")[0]
+    if c2["rc"] != 0:
+        return Outcome(False, msg="generated configuration rejected: %s" % c2["errs"], sig="gen_invalid", case_text=case2)
+    if any(s["errbits"] for s in r2.of("step")):
+        return Outcome(False, msg="step error: %s" % [s["errs"] for s in r2.of("step") if s["errbits"]][:1], sig="step_error", case_text=case2)
+    fd = r2.of("fd")
+    if not fd:
+        return Outcome(False, msg="no fd record; stderr=%s" % r2.stderr, sig="no_fd", case_text=case2)
+    sp2 = dict(spec)
+    sp2["biases"] = [{"type": kind}]
+    # the FD probe evaluates the repeated last step first: compare with that evaluation, not with the advancing step
+    last = dict(r2.of("step")[-1])
+    last["E"] = fd[0]["E0"]
+    out = compare_fd(sp2, fd[0], last, case2, extra_cls=("history",))
+    out.strata = list(out.strata or []) + ["hist:" + kind]
+    return out
+
+
+PARTS["history"] = {"strategy": spec_history, "check": check_history, "examples": {"quick": 1200, "thorough": 24000}, "sample": sample_view}
+REQUIRED_STRATA = {"all": ["history:hist:meta_nogrid", "history:hist:opes", "history:hist:abmd"]}
